@@ -733,6 +733,8 @@ def kinds_of(case):
     kinds = {}
     for n in case["tvars"] + case["mvars"]:
         kinds[n] = "l" if n in case["logs"] else "v"
+    for n in case.get("xvars", []):
+        kinds[n] = "v"                 # exogenous variables: a stored (level, change) like any other variable
     for n in case["params"]:
         kinds[n] = "p"
     for n in case["shocks"]:
@@ -1310,7 +1312,91 @@ def run_settings(ctx: Ctx):
 LOOSE = [1e-3, 1e-5, 1e-7]
 
 
+def gen_bimodal_case(rng: Rng) -> dict:
+    """a model that has a steady state in growth mode AND (given the right plan) in flat mode: stationary singles, equations
+    driven by exogenous variables (whose level and change are assigned by the user), and trending quantities -- a unit root
+    with drift and/or a growing log-variable with followers -- whose drift / growth parameter can be swapped for the
+    trending quantity itself in a flat solve"""
+    G = Builder(rng.weighted([(1, 3), (2, 1)]))
+    for _ in range(rng.randint(1, 3)):
+        mod_ar(G, rng, 1, False)
+    xvars, pairs, flat_swaps = [], {}, []
+    for _ in range(rng.randint(1, 2)):
+        zx = G.fresh("zx"); xvars.append(zx)
+        pairs[zx] = (rng.choice([10.0, 2.0, -1.0, 4.0]), rng.choice([0.5, -0.25, 1.0, 0.125]))
+        xe = G.fresh("xe"); G.tvars.append(xe)
+        rho = G.param("rho", [0.5, 0.25, 0.75], rng); a = G.param("a", [1.0, 2.0, -1.0], rng)
+        G.teqs.append((T(xe), add(mul(T(rho), T(xe, -1)), mul(sub(N(1), T(rho)), T(a)),
+                                   mul(N(rng.choice([2.0, 0.5, -1.0])), T(zx, rng.choice([0, -1]))))))
+        G.init[xe] = (rng.choice([1.0, 0.0]), None)
+        if rng.chance(0.6):
+            ce = G.fresh("ce"); G.tvars.append(ce)
+            G.teqs.append((T(ce), add(mul(N(0.5), T(xe)), T(zx))))
+            G.init[ce] = (1.0, None)
+    if rng.chance(0.6):
+        tr = G.fresh("tr"); d = G.param("d", [0.5, 0.25, -0.5, 1.0], rng)
+        f1, f2 = G.fresh("f"), G.fresh("f")
+        G.tvars += [tr, f1, f2]
+        G.teqs.append((T(tr), add(T(tr, -1), T(d))))
+        G.teqs.append((T(f1), add(mul(N(rng.choice([2.0, 0.5])), T(tr, -1)), N(1.0))))
+        G.teqs.append((T(f2), add(mul(N(0.5), T(f1)), T(tr))))
+        G.init[tr] = (rng.choice([10.0, 3.0, 0.0]), None)
+        G.init[f1] = (1.0, None); G.init[f2] = (1.0, None)
+        flat_swaps.append((tr, d))
+    if rng.chance(0.4):
+        y = G.fresh("y"); g = G.param("g", [1.03125, 1.0625], rng); cy = G.fresh("c"); sp = G.param("s", [0.75, 0.5], rng)
+        G.tvars += [y, cy]; G.logs += [y, cy]
+        G.teqs.append((div(T(y), T(y, -1)), T(g)))
+        G.teqs.append((T(cy), mul(T(sp), T(y))))
+        G.init[y] = (rng.choice([1.0, 2.0]), None); G.init[cy] = (1.0, None)
+        flat_swaps.append((y, g))
+    declared = list(G.tvars)
+    if rng.chance(0.5):
+        rng.shuffle(declared); rng.shuffle(G.teqs)
+    G.tags.append("bimodal")
+    case = finish_case(G, False, False, None, None, None)
+    case["source"] = case["source"].replace("!transition-variables\n    " + ", ".join(G.tvars),
+        "!transition-variables\n    " + ", ".join(declared) + "\n!exogenous-variables\n    " + ", ".join(xvars), 1)
+    case["xvars"], case["pairs"], case["flat_swaps"] = xvars, pairs, flat_swaps
+    return case
+
+
+def gen_history_session(seed: int) -> dict:
+    """HISTORIES of modes on one model object: (level, change) pairs assigned to exogenous variables (and to quantities a later
+    plan keeps fixed), growth-mode solves, flat re-solves (with the swap plan when the model has trending quantities),
+    re-assignments in between -- every completed solve must leave levels AND changes of ALL quantities that satisfy the
+    equations in the mode of that call"""
+    rng = Rng(seed ^ 0x5DEECE66D)
+    case = gen_bimodal_case(rng)
+    steps = [{"op": "assign_pairs", "values": {k: list(v) for k, v in case["pairs"].items()}}]
+    solver = lambda: rng.choice(list(SOLVERS))
+    def solve_step(mode_flat):
+        return {"op": "solve", "linear_in_force": False, "explicit_same": rng.chance(0.4), "solver": solver(), "user_tol": None,
+                "split": rng.choice([None, True, False]), "use_plan": True, "mode_flat": mode_flat,
+                "plan_kind": "flat_swap" if (mode_flat and case["flat_swaps"]) else None}
+    modes = rng.choice([[False, True], [False, True, False, True], [True, False, True], [False, True, True], [True, True]])
+    for j, mode in enumerate(modes):
+        steps.append(solve_step(mode))
+        if j + 1 < len(modes) and rng.chance(0.5):
+            # the user re-assigns a trend (exogenous variable, or a quantity the flat plan keeps fixed) or moves a parameter
+            what = rng.choice(["pairs", "swapvar", "param"])
+            if what == "pairs" or (what == "swapvar" and not case["flat_swaps"]):
+                zx = rng.choice(case["xvars"])
+                steps.append({"op": "assign_pairs", "values": {zx: [rng.choice([5.0, 1.0, -2.0]), rng.choice([0.5, -0.5, 0.25, 0.0])]}})
+            elif what == "swapvar":
+                v, _ = rng.choice(case["flat_swaps"])
+                logv = v in case["logs"]
+                steps.append({"op": "assign_pairs", "values": {v: [rng.choice([2.0, 1.0, 4.0]), rng.choice([1.03125, 1.0625] if logv else [0.5, -0.25, 1.0])]}})
+            else:
+                ps = [p for p in case["params"] if p[0] == "a"]
+                if ps:
+                    steps.append({"op": "assign", "name": rng.choice(ps), "factor": rng.choice([1.25, 0.75]), "shift": rng.choice([0.25, -0.125])})
+    return {"sess_seed": seed, "kind": "history", "case": case, "create_linear": rng.chance(0.3), "create_flat": rng.chance(0.5), "steps": steps}
+
+
 def gen_session(seed: int) -> dict:
+    if seed % 4 == 0:
+        return gen_history_session(seed)
     rng = Rng(seed)
     s_linear = rng.chance(0.5)                  # structure: are the equations linear / is the steady state flat
     s_flat = rng.chance(0.35)
@@ -1395,8 +1481,19 @@ def run_session(ctx: Ctx, sess) -> None:
             ctx.extra["session_build_failures"].append(repr(e)[:200])
         return
     ctx.count("sessions")
+    if sess.get("kind") == "history":
+        ctx.count("sessions_mode_history")
     ctx.count(f"session_created:linear={sess['create_linear']},flat={sess['create_flat']};structure:linear={case['linear']},flat={s_flat}")
     equality = 1e-12
+    flat_plan, flat_plan_dict = None, None
+    if case.get("flat_swaps"):
+        try:
+            flat_plan = ir.SteadyPlan(m, flat=True)
+            flat_plan_dict = {"exogenized": [v for v, _ in case["flat_swaps"]], "endogenized": [p for _, p in case["flat_swaps"]],
+                              "fixed_level": [], "fixed_change": []}
+            flat_plan.exogenize(flat_plan_dict["exogenized"]); flat_plan.endogenize(flat_plan_dict["endogenized"])
+        except Exception as e:
+            ctx.count("session_build_failed"); return
     current = {k: list(v) for k, v in case["params"].items()}
     for i, st in enumerate(sess["steps"]):
         op = st["op"]
@@ -1407,20 +1504,29 @@ def run_session(ctx: Ctx, sess) -> None:
         elif op == "assign":
             current[st["name"]] = [v * st["factor"] + st["shift"] for v in current[st["name"]]]
             m.assign(**{st["name"]: current[st["name"]] if case["nv"] > 1 else current[st["name"]][0]})
+        elif op == "assign_pairs":
+            m.assign(**{k: (v[0], v[1]) for k, v in st["values"].items()})
         else:
             kwargs = {}
             lin = st["linear_in_force"]
+            s_flat = st.get("mode_flat", case["flat"])          # the mode requested at this call
             if lin != sess["create_linear"] or st["explicit_same"]: kwargs["linear"] = lin
             if s_flat != sess["create_flat"] or st["explicit_same"]: kwargs["flat"] = s_flat
             tol_in_force = equality
             use_plan = plan is not None and st["use_plan"] and not lin
+            step_plan, step_plan_dict = (plan, case["plan"]) if use_plan else (None, None)
+            if st.get("plan_kind") == "flat_swap" and flat_plan is not None:
+                step_plan, step_plan_dict, use_plan = flat_plan, flat_plan_dict, True
+            # parameters found by an earlier swap stay in the model: read the values in force from the model itself
+            qid_now = m.create_name_to_qid()
+            current = {k: [v.levels[qid_now[k]] for v in m._variants] for k in current}
             if not lin:
                 if st["solver"] != "neqs_levenberg": kwargs["solver"] = st["solver"]
                 if st["user_tol"] is not None:
                     kwargs["solver_settings"] = {("func_tolerance" if st["solver"] == "neqs_levenberg" else "tol"): st["user_tol"]}
                     tol_in_force = st["user_tol"]
                 if st["split"] is not None: kwargs["split_into_blocks"] = st["split"]
-                if use_plan: kwargs["plan"] = plan
+                if use_plan: kwargs["plan"] = step_plan
             before = snapshot(m)
             try:
                 with contextlib.redirect_stdout(io.StringIO()), np.errstate(all="ignore"):
@@ -1439,8 +1545,10 @@ def run_session(ctx: Ctx, sess) -> None:
             loose = (not lin) and tol_in_force > 1e-9
             tol = max(TOL_ORACLE, 10.0 * tol_in_force) if loose else TOL_ORACLE
             dates = [0, 1] if loose else None
-            judged = dict(case, plan=case["plan"] if use_plan else None,
+            judged = dict(case, flat=s_flat, plan=step_plan_dict if use_plan else None,
                           params={k: v for k, v in current.items()})
+            if sess.get("kind") == "history":
+                ctx.count("history_solve:" + ("flat" if s_flat else "growth") + (":swap-plan" if st.get("plan_kind") else ""))
             oracle(ctx, judged, m, before, tol=tol, dates=dates, payload=session_for_json(sess, i),
                    note=f"step {i} ({'linear' if lin else st['solver']}, kwargs {sorted(k for k in kwargs if k != 'plan')}, tolerance in force {tol_in_force:g}): ")
             ctx.nontriv(("session", sess["create_linear"], sess["create_flat"], case["linear"], s_flat, lin, st["solver"] if not lin else "",
